@@ -606,6 +606,11 @@ def _normalize_media(media: Type[ComponentMediaInput]) -> None:
             css = lazy_eval_css
     ```
     """
+    # Allow: class Media: css = []
+    # NOTE: Django's Media expects a dict, so an empty list (or tuple, or string) must not be left as it is.
+    if hasattr(media, "css") and media.css is not None and not media.css:
+        media.css = {}
+
     if hasattr(media, "css") and media.css:
         # Allow: class Media: css = "style.css"
         if _is_media_filepath(media.css):
